@@ -81,7 +81,7 @@
             check(text, Some(value.to_string()), &mut failures);
         }}}}}
         // 4. fractions, alone and scaled by units; trailing fractional zeros are dropped
-        for (t, w) in [("3.14", "3.14"), ("0.5", "0.5"), ("00.1000", "00.1"), ("12.50", "12.5"), ("1.0", "1"), ("〇.五", "0.5"), ("1.5千", "1500"), ("1.25万", "12500"),
+        for (t, w) in [("3.14", "3.14"), ("0.5", "0.5"), ("00.1000", "00.1"), ("12.50", "12.5"), ("1.0", "1"), ("10.0", "10"), ("100.00", "100"), ("1,500.0", "1500"), ("二〇.〇", "20"), ("三万10.00", "30010"), ("0.0", "0"), ("〇.五", "0.5"), ("1.5千", "1500"), ("1.25万", "12500"),
                        ("1.5百万", "1500000"), ("1.5百万1.5千20", "1501520"), ("2.5億3千", "250003000"), ("0.5千", "500"), ("1.05万", "10500"), ("千三百二十七.〇五", "1327.05")] {
             check(t.to_string(), Some(w.to_string()), &mut failures);
         }
